@@ -1009,7 +1009,9 @@ func (s *Entry) collectArgs(ctx context.Context, kvps *Attrs, roughSize int, lvl
 	if s.ctxKeysWanted() {
 		s.fromCtx(ctx, kvps)
 	}
-	if len(s.attrs) > 0 {
+	// a logger without attributes of its own still inherits its ancestors'
+	// attributes when LattrsR is on
+	if len(s.attrs) > 0 || IsAnyBitsSet(LattrsR) {
 		s.walkParentAttrs(ctx, lvl, s, kvps)
 	}
 	if len(args) > 0 {
